@@ -119,11 +119,11 @@ ListedKnown(ch, cs) == \A i \in 1..Len(cs) : Has(ch, cs[i])
 CfgValid(s, c) ==
   /\ ValidAddr(c.challenger) /\ ValidAddr(c.proposer)
   /\ c.bchain # "UNSPECIFIED" /\ c.bsub # ""
-  /\ (IF Dev(s, DEV_NegativePeriod) THEN c.period # 0 ELSE c.period > 0)
-  /\ c.interval # 0 /\ c.startH # 0
+  /\ c.period # 0 /\ c.interval # 0 /\ c.startH # 0
 
 CreateBridge_G(s, e) ==
   [ valid       |-> ValidAddr(e.signer) /\ CfgValid(s, e.cfg) /\ e.cfg.meta.cls # "long",
+    periodPositive |-> Dev(s, DEV_NegativePeriod) \/ e.cfg.period >= 0,
     feeCovered  |-> ValidAddr(e.signer) => (s.fee = 0 \/ Bal(s, e.signer, s.feeDenom) >= s.fee),
     hookOK      |-> RegisterAll(s.chan, MetaChans(e.cfg.meta), e.cfg.challenger, FALSE).ok ]
 
